@@ -3,6 +3,8 @@ import numpy as np
 
 from vmon import domain, gen, instr, models, scen
 
+from vmon.scale import S
+
 ID = 'C09'
 RULE = ('cases = fits of all seven mixture trainers and the six single-distribution trainers on degenerate data (zero, duplicated, '
         'collinear / low-rank, fewer frames than channels, single frame, 300 dB dynamic range, single precision) from Dirichlet, '
@@ -14,12 +16,12 @@ MIN_DECIDED = {'quick': 150, 'thorough': 1500}
 NEEDS_HOOK = True
 CASE_TIMEOUT = {'quick': 240, 'thorough': 600}
 ASSUMPTIONS = ['a fit that raises returns no model and is counted as raised', 'a class that loses all its mass during EM has left the stated domain (positive class mass)']
-CLASSES = ['zeros', 'dup', 'lowrank', 'short', 'short1', 'ragged', 'scaled_up', 'scaled_down', 'gauss']
+CLASSES = ['zeros', 'dup', 'lowrank', 'short', 'short1', 'ragged', 'scaled_up', 'scaled_down', 'gauss', 'zerobin', 'zeroclass']
 
 
 def plan(tier, seed):
     rng = np.random.default_rng([seed, 109])
-    n = 30 if tier == 'quick' else 300
+    n = S(tier, 30, 300)
     pick = lambda xs: xs[int(rng.integers(len(xs)))]
     cases, i = [], 0
     for kind in models.KINDS:
@@ -33,6 +35,8 @@ def plan(tier, seed):
                 N = int(pick([2, max(2, D - 1), D])); ccls = 'gauss'
             elif cls == 'short1':
                 N = 1; ccls = 'gauss'
+            elif cls in ('zerobin', 'zeroclass'):
+                N = int(rng.integers(3 * K, 10 * K + 8)); ccls = 'gauss'
             else:
                 N = int(rng.integers(3 * K, 10 * K + 8)); ccls = cls
             real = kind in models.REAL
@@ -40,12 +44,14 @@ def plan(tier, seed):
             init = pick(['onehot', 'onehot', 'dirichlet:1', 'dirichlet:0.1', 'blur:0.3'])
             if N < K:
                 init = 'dirichlet:1'
+            if cls == 'zeroclass':
+                init = 'onehot'
             o = scen.sample_opts(rng, kind, lead)
             o.pop('aligner', None)
             iters = int(pick([1, 2, 3, 5, 10])) if kind != 'cbmm' else int(pick([1, 2]))
             cases.append(dict(lane='mixture', kind=kind, cls=ccls, tag=cls, K=K, N=N, D=D, lead=lead, dtype=dtype, init=init, iters=iters, opts=o, rs=[seed, 9, i]))
             i += 1
-    m = 20 if tier == 'quick' else 200
+    m = S(tier, 20, 200)
     for fam in ('gauss', 'diag', 'spher', 'ccsg', 'vmf', 'watson', 'cacg', 'bingham'):
         for r in range(m if fam != 'bingham' else max(5, m // 4)):
             D = int(rng.integers(2, 8)) if fam != 'bingham' else int(rng.integers(2, 5))
@@ -88,6 +94,11 @@ def guards_active(kind, model, copts):
 def run_mixture(case, R):
     s = scen.build(case)
     kind = s.kind
+    if case['tag'] == 'zerobin' and s.lead:
+        s.data['y'][(0,) * len(s.lead)] = 0                       # a silent frequency bin: every frame is the zero vector
+    if case['tag'] == 'zeroclass' and s.init is not None:
+        z = np.broadcast_to(s.init, s.aff_shape)[..., 0, :] > 0.5  # all frames a hard start gives to class 0 are zero vectors
+        s.data['y'][z] = 0
     try:
         with instr.options(**s.copts), instr.capture() as ev:
             model = scen.fit(s)
@@ -104,7 +115,7 @@ def run_mixture(case, R):
     g = guards_active(kind, model, s.copts)
     for name in g:
         R.count('guard active: ' + name)
-    if g or case['tag'] in ('zeros', 'dup', 'lowrank', 'short', 'short1'):
+    if g or case['tag'] in ('zeros', 'dup', 'lowrank', 'short', 'short1', 'zerobin', 'zeroclass'):
         R.mark_nontrivial(kind, case['tag'], case['opts'], s.K, s.D, s.N, case['lead'], g)
     R.sample(dict(lane='mixture', kind=kind, cls=case['tag'], K=s.K, D=s.D, N=s.N, lead=case['lead'], opts=case['opts'], guards=g, iters=s.iterations))
 
@@ -119,6 +130,8 @@ def run_dist(case, R):
     cls = case['cls']
     if cls in ('short', 'short1'):
         cls = 'gauss'
+    if cls in ('zerobin', 'zeroclass'):
+        cls = 'zeros'
     if N >= 2 or cls in ('gauss', 'scaled_up', 'scaled_down', 'ragged'):
         y = gen.hostile(rng, y, cls, real=real) if not (cls == 'lowrank' and D < 2) else y
     sal = None
